@@ -1080,6 +1080,15 @@ def check_functions(case, out):
 
 
 # ============================================================================ harness interface
+def engine_only(kind, case):
+    """the engine's share of a case: one translation / one call of each function"""
+    if kind == 'translate':
+        eng_compile(case['p'], case['flags'], case['ver'], case['mode'])
+    elif kind == 'functions':
+        for e in ('matches($s,$p,$f)', 'tokenize($s,$p,$f)', 'analyze-string($s,$p,$f)'):
+            fn_call(e, case['s'], case['p'], case['flags'])
+
+
 def check_case(kind, case):
     out = Outcome()
     if kind == 'translate':
